@@ -100,8 +100,17 @@ def run(ctx):
     own = [(n, c) for n, c in cfg.calls(
         lambda c: U.call_name(c) == 'stop' and
         isinstance(c.func, ast.Attribute))]
-    if not rec or not own:
+    if not own:
         raise AnalysisError('C11.R2: stop_workflow structure lost')
+    if not rec:
+        # there is no "all descendants" column (root_execution_id names the
+        # top of the tree, not the execution being cancelled): the only
+        # complete walk is children of this execution's tasks, recursively
+        r2.fail(ctx.construct(sw, extra='recursion into sub-workflows'),
+                'stop_workflow no longer calls itself for the sub-workflows '
+                'of its tasks: cancelling an execution in the middle of a '
+                'tree leaves everything below it running', ctx.loc(sw))
+        return
     for n, c in rec:
         vals = {v[0] for v in IN[n.id]}
         subs = {v[1] for v in IN[n.id]}
